@@ -16,10 +16,13 @@ CHECK = {
            'universe in both argument orders, hash (fresh stack String and an independent MurmurHash64A), mem(u) for every operand and the NUL '
            'terminator inside the allocation are compared with libc applied to a reference char[]; rem and the operations that can die inside '
            'libc are first tried in a forked child sharing the state so that a crash is one terminal transition, not the end of the exploration; '
-           'distinct_nontrivial = states whose content holds some operand at two different (possibly overlapping) offsets'),
+           'distinct_nontrivial = states whose content holds some operand at two different (possibly overlapping) offsets; '
+           'ladder instances cover every length beyond the BFS bound: for each payload length N and prefix length P one assign / concat / append / '
+           'print_to(s,P,"%s",payload)+append / print_to(s,0,...) / resize(N) shrink and grow / rem(payload) from prefix+payload+suffix / rem absent / copy '
+           'on a fresh String, each with the same libc oracle (non-trivial there: N or P+N within one of a power of two >= 64)'),
   'bounds': {
-    'quick': 'content over {a,b} up to length 5 (gcc) and up to length 4 (ASan+UBSan; 3 with aliased operands); operands = all 7 strings of length <= 2; resize(n) for n <= len+2; print_to at every pos <= len',
-    'thorough': 'content over {a,b,c} up to length 6 with operands of length <= 2 (13), {a,b,c} up to 5 and {a,b} up to 8 with operands of length <= 3; ASan+UBSan: {a,b} up to 6 and {a,b,c} up to 4',
+    'quick': 'content over {a,b} up to length 5 (gcc) and up to length 4 (ASan+UBSan; 3 with aliased operands); operands = all 7 strings of length <= 2; resize(n) for n <= len+2; print_to at every pos <= len; ladder: payload lengths 0..300 x prefix lengths {0,1,5,127,128} x 10 operations (gcc and ASan+UBSan)',
+    'thorough': 'content over {a,b,c} up to length 6 with operands of length <= 2 (13), {a,b,c} up to 5 and {a,b} up to 8 with operands of length <= 3; ASan+UBSan: {a,b} up to 6 and {a,b,c} up to 4; ladder: payload lengths 0..1100 (crossing 64, 128, 256, 512, 1024 and neighbours) x the same prefixes and operations',
   },
   'assumptions': [
     'contents over a 2- or 3-letter alphabet represent all contents (String code treats bytes uniformly; cmp is additionally evaluated against bytes below/above the alphabet and >= 0x80)',
@@ -35,6 +38,9 @@ CHECK = {
       # the argument IS the target: assign(s,s), concat(s,s), rem(s,s) added to the alphabet
       T('ab3-alias-asan', 'asan', 'alpha=2', 'maxlen=3', 'alias=1'),
       T('ab4-alias', 'base', 'alpha=2', 'maxlen=4', 'alias=1'),
+      # every length from empty upwards: one operation per fresh String, payload lengths 0..300 x prefix lengths {0,1,5,127,128}
+      T('ladder', 'base', 'mode=ladder', 'maxn=300'),
+      T('ladder-asan', 'asan', 'mode=ladder', 'maxn=300'),
     ],
     'thorough': [
       T('abc6', 'base', 'alpha=3', 'maxlen=6'),
@@ -44,6 +50,8 @@ CHECK = {
       T('abc4-asan', 'asan', 'alpha=3', 'maxlen=4'),
       T('ab5-alias-asan', 'asan', 'alpha=2', 'maxlen=5', 'alias=1'),
       T('abc5-alias', 'base', 'alpha=3', 'maxlen=5', 'alias=1'),
+      T('ladder', 'base', 'mode=ladder', 'maxn=1100'),
+      T('ladder-asan', 'asan', 'mode=ladder', 'maxn=1100'),
     ],
   },
 }
